@@ -147,8 +147,23 @@ package kv
 //@ # one" - whatever a peer streams, it is written (value and digest) only if it supersedes what the
 //@ # recovery transaction sees for that key: the stored state, what an earlier peer's transaction
 //@ # committed, and what this peer sent before
-//@ trusted func loadHighWater(ctx context.Context, cfg Config) (highWater version.Counter, err error)
+//@ # The high-water mark tells a peer which of its digests it may skip ("older than the mark").
+//@ # Versions are per-leaseholder counters (versionAssigner.assign), so skipping is only safe for a
+//@ # leaseholder l if the mark does not exceed the newest version the node holds from l: "once
+//@ # gossip has quiesced ... every node holds the leaseholder's latest write for each key", also
+//@ # after "node restart followed by recovery" (C06).
+//@ # SpecNewestFrom(e, l): the newest version among the digests leased by l that e stores
+//@ # (0 if there is none)
+//@ spec func specNewestRaw(e any, l node.Key) version.Counter
+//@ spec func SpecNewestFrom(e any, l node.Key) version.Counter = __ite(specNewestRaw(e, l) > 0, specNewestRaw(e, l), 0)
+//@ func loadHighWater(ctx context.Context, cfg Config) (highWater version.Counter, err error)
+//@   ensures err == nil ==> (forall l node.Key :: highWater <= SpecNewestFrom(cfg.Engine, l))
+//@   # what is read from the digest prefix is a stored digest
+//@   assume_after "err = codec.Decode(ctx, v, &dig)" err == nil ==> dig.Version >= 0 && dig.Version <= SpecNewestFrom(cfg.Engine, dig.Leaseholder)
 //@   modifies nothing
+//@   loop 0 modifies nothing
+//@   # the mark is 0 or the version of a stored digest
+//@   loop 0 invariant highWater >= 0 && (highWater == 0 || (exists l node.Key :: highWater <= SpecNewestFrom(cfg.Engine, l)))
 //@ func runSingleNodeRecovery(ctx context.Context, cfg Config, node node.Node) (err error)
 //@   pragma opaque_func_values
 //@   # `count` only feeds a log line
